@@ -183,7 +183,7 @@ fn answer(rt: &tokio::runtime::Runtime, line: &str) -> String {
                 }
             }
             // a slice panic on a too-short file is the same class as a decode error (not Ok)
-            match catch(|| hk::VerifColumn::open(vec![], &bytes, DataType::Int32, None)) {
+            match catch(|| hk::VerifColumn::open(vec![], &bytes, DataType::Int32, None, true)) {
                 Err(_) => "err:decode".into(),
                 Ok(Err(e)) => err_class(&e.to_string()).into(),
                 Ok(Ok(c)) => format!("ok:{}", c.block_count()),
@@ -200,12 +200,12 @@ fn answer(rt: &tokio::runtime::Runtime, line: &str) -> String {
                 synth_index(&entries)
             };
             let mut file = pristine.clone();
-            let mut col = hk::VerifColumn::open(file.clone(), &idx, DataType::Int32, None).unwrap();
+            let mut col = hk::VerifColumn::open(file.clone(), &idx, DataType::Int32, None, true).unwrap();
             let mut outs = vec![];
             for op in &t[4..] {
                 match op.as_bytes()[0] {
                     b'C' => { apply_patch(&mut file, t[3], &entries); col = col.with_data(file.clone()); }
-                    b'F' => { col = hk::VerifColumn::open(file.clone(), &idx, DataType::Int32, None).unwrap(); }
+                    b'F' => { col = hk::VerifColumn::open(file.clone(), &idx, DataType::Int32, None, true).unwrap(); }
                     b'g' => {
                         let b: u32 = op[1..].parse().unwrap();
                         // the in-memory file backend slices the buffer (panics when the file is too
@@ -242,10 +242,13 @@ fn synth_index(entries: &[(usize, usize)]) -> Vec<u8> {
         varint(m.len() as u64, &mut data);
         data.extend(m);
     }
+    // footer with a CRC-32 over the entries: the reader is opened as a storage configured with
+    // Crc32, which refuses a footer that says checksum type None
+    let ck = hk::crc32(&data);
     data.extend(0x2333u32.to_be_bytes());
     data.extend((entries.len() as u64).to_be_bytes());
-    data.extend(0i32.to_be_bytes());
-    data.extend(0u64.to_be_bytes());
+    data.extend(1i32.to_be_bytes());
+    data.extend(ck.to_be_bytes());
     data
 }
 
@@ -324,7 +327,7 @@ fn disk(work: &str, n_cases: usize) {
     // layout of every file for the model (entries of .col files come from the real index reader)
     for (name, bytes) in &files {
         if name.ends_with(".idx") {
-            let c = hk::VerifColumn::open(vec![], bytes, DataType::Int32, None).unwrap();
+            let c = hk::VerifColumn::open(vec![], bytes, DataType::Int32, None, true).unwrap();
             let ents: Vec<String> = c.index_entries().iter().map(|e| format!("{},{}", e.offset, e.length)).collect();
             println!("{{\"layout\":\"{}\",\"len\":{},\"entries\":\"{}\",\"hex\":\"{}\"}}", name, bytes.len(), ents.join(";"), hex(bytes));
         } else {
@@ -351,7 +354,7 @@ fn disk(work: &str, n_cases: usize) {
             {
                 let idxname = name.replace(".col", ".idx");
                 let ib = &files.iter().find(|(n, _)| *n == idxname).unwrap().1;
-                let ents: Vec<(usize, usize)> = hk::VerifColumn::open(vec![], ib, DataType::Int32, None).unwrap().index_entries().iter().map(|e| (e.offset as usize, e.length as usize)).collect();
+                let ents: Vec<(usize, usize)> = hk::VerifColumn::open(vec![], ib, DataType::Int32, None, true).unwrap().index_entries().iter().map(|e| (e.offset as usize, e.length as usize)).collect();
                 let mut bs = vec![0usize, ents.len() - 1];
                 bs.dedup();
                 for b in bs {
@@ -387,7 +390,7 @@ fn disk(work: &str, n_cases: usize) {
         let entries: Vec<(usize, usize)> = if name.ends_with(".col") {
             let idxname = name.replace(".col", ".idx");
             let ib = &files.iter().find(|(n, _)| *n == idxname).unwrap().1;
-            hk::VerifColumn::open(vec![], ib, DataType::Int32, None).unwrap().index_entries().iter().map(|e| (e.offset as usize, e.length as usize)).collect()
+            hk::VerifColumn::open(vec![], ib, DataType::Int32, None, true).unwrap().index_entries().iter().map(|e| (e.offset as usize, e.length as usize)).collect()
         } else { vec![] };
         let mut b = bytes.clone();
         apply_patch(&mut b, &patch, &entries);
@@ -499,7 +502,7 @@ fn compact(work: &str, n_cases: usize) {
         let (name, bytes) = &files[case % files.len()];
         let idxname = name.replace(".col", ".idx");
         let ib = std::fs::read(base.join(&idxname)).unwrap();
-        let entries: Vec<(usize, usize)> = hk::VerifColumn::open(vec![], &ib, DataType::Int32, None).unwrap()
+        let entries: Vec<(usize, usize)> = hk::VerifColumn::open(vec![], &ib, DataType::Int32, None, true).unwrap()
             .index_entries().iter().map(|e| (e.offset as usize, e.length as usize)).collect();
         let b = r.below(entries.len() as u64) as usize;
         let (off, len) = entries[b];
